@@ -211,6 +211,7 @@ const canary = 0xA5
 // Guards are the guard zones installed on one object.
 type Guards struct {
 	zones []guardZone
+	cands []candidate
 }
 
 type guardZone struct {
@@ -268,16 +269,45 @@ func (g *Guards) install(v reflect.Value, visited map[uintptr]bool, path string)
 			return
 		}
 		hdr := (*sliceHeader)(unsafe.Pointer(v.UnsafeAddr()))
-		words := (n+2*zone)/8 + 2
+		g.cands = append(g.cands, candidate{hdr: hdr, n: n, name: path})
+	}
+}
+
+type candidate struct {
+	hdr  *sliceHeader
+	n    int
+	name string
+}
+
+// rehome moves the collected slices into guarded allocations. Slices whose memory overlaps another candidate (two
+// fields aliasing one backing array) are left alone: moving one of them would break the aliasing the library relies on.
+func (g *Guards) rehome() {
+	for i, c := range g.cands {
+		lo, hi := uintptr(c.hdr.Data), uintptr(c.hdr.Data)+uintptr(c.n)
+		overlap := false
+		for j, o := range g.cands {
+			if i == j {
+				continue
+			}
+			olo, ohi := uintptr(o.hdr.Data), uintptr(o.hdr.Data)+uintptr(o.n)
+			if lo < ohi && olo < hi {
+				overlap = true
+			}
+		}
+		if overlap {
+			continue
+		}
+		words := (c.n+2*zone)/8 + 2
 		backing := make([]uint64, words)
 		raw := unsafe.Slice((*byte)(unsafe.Pointer(&backing[0])), words*8)
-		for i := range raw {
-			raw[i] = canary
+		for k := range raw {
+			raw[k] = canary
 		}
-		copy(raw[zone:zone+n], rawBytes(hdr.Data, uintptr(n)))
-		hdr.Data = unsafe.Pointer(&raw[zone])
-		g.zones = append(g.zones, guardZone{backing: backing, total: n, name: path})
+		copy(raw[zone:zone+c.n], rawBytes(c.hdr.Data, uintptr(c.n)))
+		c.hdr.Data = unsafe.Pointer(&raw[zone])
+		g.zones = append(g.zones, guardZone{backing: backing, total: c.n, name: c.name})
 	}
+	g.cands = nil
 }
 
 // Install re-homes every internal scalar slice of at least 512 bytes reachable
@@ -290,6 +320,7 @@ func Install(obj interface{}) *Guards {
 		return g
 	}
 	g.install(v.Elem(), map[uintptr]bool{v.Pointer(): true}, "")
+	g.rehome()
 	return g
 }
 
